@@ -129,7 +129,7 @@ CtxSizes == {<<3, 3>>}
 CtxLeanAlphabet(t) ==
      {F2("Cup", t.rows, t.cols), F0("Decsc"), F0("Decrc"), F1("Print", 97)}
   \cup {FS(f, <<m>>) : f \in {"Decset", "Decrst"}, m \in {1047, 1049}}
-  \cup {FS("Decset", <<6>>), F2("Decstbm", 1, t.rows - 1)}
+  \cup {FS("Decset", <<6>>), F2("Decstbm", 1, t.rows - 1), F2("Decstbm", 2, t.rows)}
 CtxLeanResizes(t) == {<<c, r>> \in {<<2, 2>>, <<4, 5>>} : <<c, r>> # <<t.cols, t.rows>>}
 CtxResizes(t) == {<<c, r>> \in {<<1, 1>>, <<2, 2>>, <<3, 3>>, <<4, 5>>} : <<c, r>> # <<t.cols, t.rows>>}
 
